@@ -82,7 +82,8 @@ def lookups(facts, rep, R1):
                 t0 = term
                 if t0[0] == "discr":
                     t0 = t0[1]
-                if t0[0] == "call" and t0[1].startswith(LAYER + "::"):
+                if t0[0] == "call" and t0[1].startswith(LAYER + "::") and probe is None:
+                    # the first test of a layer method decides whether the layer "has" the path
                     if term[0] == "discr":
                         truth = (vals == (1,)) != neg
                     else:
@@ -123,6 +124,12 @@ def lookups(facts, rep, R1):
                 elif p.end == "ret":
                     r = p.ret
                     found = (r[0] == "agg" and r[3] in ("Ok", "Some") and r[4][0] != ("const", False, "bool")) or is_err_term(r) is True
+                    # `find_map`: the probe's own `Some(..)` is returned
+                    if not found and norm(r) == norm(pcall) and name == "resolve":
+                        found = True
+                    # a forwarded call result (e.g. the decoder's Result) is not the "absent" answer either
+                    if not found and r[0] in ("call", "var") and not (r[0] == "agg"):
+                        found = True
                     if not found:
                         bad = "returns %s on a hit" % fmt(r)[:80]
                     # read: the bytes come from the same layer and the same path
